@@ -841,3 +841,59 @@ pub fn replay_case(case: &str, out: &mut Out) {
 fn _unused() {
     let _ = dec_name("-");
 }
+
+/// Reproducer of the liveness observation in docs/C20.md ("worker blocked by an unanswered setup USE").
+/// Not part of the check.  `c20 --probe-blocked-worker` prints, for a server that (a) answers keepalives but
+/// never the keyspace-setup USE of a new node's first connection, (b) goes completely silent on that
+/// connection, how long `refresh_metadata()` and the next `use_keyspace()` take (cap 8 s each), with
+/// keepalive_interval = keepalive_timeout = 300 ms.
+pub fn probe_blocked_worker() {
+    let rt = tokio::runtime::Builder::new_multi_thread().worker_threads(4).enable_all().build().unwrap();
+    for (label, silent_conn) in [("setup USE unanswered, keepalives answered", false), ("connection silent after the setup USE", true)] {
+        let line = rt.block_on(async move {
+            let mut spec = ClusterSpec::uniform("c20probe", &[("dc1", 1)], 1, 4, 1);
+            for k in KEYSPACES {
+                spec = spec.with_keyspace(KeyspaceDef::simple(k, 1));
+            }
+            let cluster = Arc::new(MockCluster::start(spec).await.expect("mock"));
+            let session = SessionBuilder::new()
+                .known_node_addr(cluster.contact_point(0))
+                .local_ip_address(Some(cluster.client_ip()))
+                .connection_timeout(Duration::from_millis(400))
+                .keepalive_interval(Duration::from_millis(300))
+                .keepalive_timeout(Duration::from_millis(300))
+                .build()
+                .await
+                .expect("session");
+            session.use_keyspace("ks_a", false).await.expect("first use");
+            let armed = Arc::new(std::sync::atomic::AtomicBool::new(true));
+            let a2 = armed.clone();
+            cluster.set_handler(Some(Arc::new(move |ctx: &ReqCtx| {
+                let text = ctx.text.as_deref().unwrap_or("");
+                if ctx.opcode == op::QUERY && text.starts_with("USE ") && a2.swap(false, Ordering::SeqCst) {
+                    return Some(vec![if silent_conn { Action::Stall } else { Action::NoReply }]);
+                }
+                None
+            })));
+            let tokens: Vec<i64> = (0..4).map(|t| 1_000_003 + t * 7_919_000_000_007).collect();
+            cluster.add_node(NodeSpec::new(1, "dc1", "r1", tokens, 1)).await.expect("add node");
+            let t0 = Instant::now();
+            let r1 = tokio::time::timeout(Duration::from_secs(8), session.refresh_metadata()).await;
+            let d1 = t0.elapsed();
+            let t1 = Instant::now();
+            let r2 = tokio::time::timeout(Duration::from_secs(8), session.use_keyspace("ks_b", false)).await;
+            let d2 = t1.elapsed();
+            let consumed = !armed.load(Ordering::SeqCst);
+            cluster.shutdown();
+            format!(
+                "setup USE intercepted: {}; refresh_metadata: {} after {:?}; use_keyspace: {} after {:?}",
+                consumed,
+                match r1 { Ok(Ok(_)) => "Ok", Ok(Err(_)) => "Err", Err(_) => "NO RETURN (8 s cap)" },
+                d1,
+                match r2 { Ok(Ok(_)) => "Ok", Ok(Err(_)) => "Err", Err(_) => "NO RETURN (8 s cap)" },
+                d2
+            )
+        });
+        println!("{}: {}", label, line);
+    }
+}
